@@ -507,6 +507,8 @@ class Translator:
         f.src = (info.get("file"), int(info.get("line", 0)))
         self.cur = f
         self.cur_captures = getattr(self, "lambda_by_callop", {}).get(did)
+        self.temp_dtors = []
+        self.prescan_lambdas(node, cname)
         self.tmpn = 0
         self.blockstack = []
         rets, ps = fn_ret_type(info["type"])
@@ -557,6 +559,7 @@ class Translator:
             for c in node.get("inner", []):
                 if c.get("kind") == "CXXCtorInitializer":
                     stmts += self.ctor_init(c)
+                    stmts += self.flush_temp_dtors()
         for c in node.get("inner", []):
             if c.get("kind") == "CompoundStmt":
                 body = c
@@ -596,6 +599,30 @@ class Translator:
                 self.temp_dtors = []
             self.temp_dtors.append((t, dfn))
             self.rule("temporary-dtor")
+
+    def prescan_lambdas(self, node, cname):
+        """closure types get names that are stable under line shifts: <enclosing function>__lambda<k> in source order"""
+        k = 0
+        stack = [node]
+        order = []
+        while stack:
+            n = stack.pop()
+            if n.get("kind") == "LambdaExpr":
+                order.append(n)
+            for ch in reversed(n.get("inner", [])):
+                if isinstance(ch, dict):
+                    stack.append(ch)
+        for n in order:
+            info = self.ast.E.get(n.get("id"))
+            if not info or "closure" not in info:
+                continue
+            r = self.ast.R.get(info["closure"])
+            if r is None:
+                continue
+            canon = r["name"]
+            k += 1
+            if canon not in self.rec_names and canon not in self.rec_alias:
+                self.rec_alias[canon] = "%s__lambda%d" % (cname, k)
 
     def rule(self, r, n=1):
         self.cur.rules[r] = self.cur.rules.get(r, 0) + n
@@ -756,7 +783,7 @@ class Translator:
     def request_dtor(self, did, ty):
         m = self.model_dtor(did, ty)
         if m is not None:
-            return m
+            return m or None
         info = self.ast.finfo(did)
         if "trivial" in info:
             return None
@@ -1122,6 +1149,13 @@ class Translator:
         return r
 
     def e_CXXThisExpr(self, e):
+        caps = getattr(self, "cur_captures", None)
+        if caps:
+            for (fname, fty, var, _) in caps:
+                if var == "this":
+                    self.rule("captured-this access")
+                    return X("mem", deref(X("var", "self", ty=self.this_ty)), fname, ty=self.lower(fty))
+            raise ExtractionBreak("'this' used in a lambda that does not capture it")
         return X("var", "self", ty=self.this_ty)
 
     def e_DeclRefExpr(self, e):
@@ -1544,11 +1578,6 @@ class Translator:
         self.lambda_fields[canon] = [(fn, ft) for (fn, ft, _, _) in caps]
         self.lambda_by_callop = getattr(self, "lambda_by_callop", {})
         self.lambda_by_callop[callop] = caps
-        if canon not in self.rec_names:
-            self.lambda_count = getattr(self, "lambda_count", {})
-            k = self.lambda_count.get(self.cur.cname, 0) + 1
-            self.lambda_count[self.cur.cname] = k
-            self.rec_alias[canon] = "%s__lambda%d" % (self.cur.cname, k)   # stable under line shifts
         cn = self.need_record(canon)
         ty = Ty("rec", name=canon)
         r = X("var", "__lam", ty=ty)
